@@ -148,6 +148,7 @@ type Frame struct {
 	debugRefs2  map[string][]*ssa.DebugRef
 	callStates  map[string][]*State
 	evalAt      *ssa.BasicBlock
+	visitedMode int // 0: at loop head, 1: at loop entry (inv-init), 2: at a back edge
 	preCallStates map[string][]*State
 	lastRet     *ssa.Return
 	addrNames   map[string]ssa.Value // names of address-taken variables -> their address
@@ -173,6 +174,9 @@ type loopInfo struct {
 	resolvedAddr map[string]bool
 	parent       *loopInfo
 	hasBreak     bool
+	visited      Term // map-range loops: the set of keys visited before the current iteration (Array K Bool)
+	visitedNext  Term // ... after the current iteration
+	visitedSort  string
 }
 
 func (fx *FnCtx) oblige(kind, name, text string, st *State, goal Term, pos token.Pos, props []string) {
@@ -1105,10 +1109,12 @@ func (fr *Frame) enterLoop(li *loopInfo, pre *State) *State {
 	for _, c := range fr.autoInvs(li) {
 		fx.oblige("inv-init", fmt.Sprintf("%s/inv-init/loop%d/auto:%s", name, li.ordinal, c.label), c.text, pre, c.eval(pre), b.Instrs[0].Pos(), nil)
 	}
+	fr.visitedMode = 1
 	for _, c := range invs {
 		t := fr.evalClause(c, pre, li)
 		fx.oblige("inv-init", fmt.Sprintf("%s/inv-init/loop%d/%s", name, li.ordinal, c.Label), c.Text, pre, t, b.Instrs[0].Pos(), fr.props())
 	}
+	fr.visitedMode = 0
 	if fr.fc != nil {
 		for _, c := range fr.fc.Entries[li.ordinal] {
 			t := fr.evalClause(c, pre, li)
@@ -1134,6 +1140,18 @@ func (fr *Frame) enterLoop(li *loopInfo, pre *State) *State {
 		li.phiVals[phi] = fr.env[phi]
 	}
 	fx.frameAssumption(hs, pre)
+	// map-range loops: ghost set of visited keys
+	for _, ins := range b.Instrs {
+		if nx, ok := ins.(*ssa.Next); ok {
+			if rg, ok := nx.Iter.(*ssa.Range); ok {
+				if mt, ok := rg.X.Type().Underlying().(*types.Map); ok {
+					mi := fx.tm.mapInfo(mt)
+					li.visitedSort = "(Array " + mi.KeySort + " Bool)"
+					li.visited = fx.s.freshConst("visited", li.visitedSort)
+				}
+			}
+		}
+	}
 	li.hdrSt = hs.clone()
 	// 4. assume invariants
 	for _, c := range fr.autoInvs(li) {
@@ -1211,10 +1229,12 @@ func (fr *Frame) backEdge(from *ssa.BasicBlock, li *loopInfo, st *State) {
 	for _, c := range fr.autoInvs(li) {
 		fx.oblige("inv-pres", fmt.Sprintf("%s/inv-pres/loop%d/auto:%s", name, li.ordinal, c.label), c.text, st, c.eval(st), b.Instrs[0].Pos(), nil)
 	}
+	fr.visitedMode = 2
 	for _, c := range invs {
 		t := fr.evalClause(c, st, li)
 		fx.oblige("inv-pres", fmt.Sprintf("%s/inv-pres/loop%d/%s", name, li.ordinal, c.Label), c.Text, st, t, b.Instrs[0].Pos(), fr.props())
 	}
+	fr.visitedMode = 0
 	if fr.fc != nil {
 		for _, c := range fr.fc.Steps[li.ordinal] {
 			fr.evalAt = from
@@ -1944,9 +1964,17 @@ func (fr *Frame) execNext(x *ssa.Next, st *State) {
 		ok := fx.s.freshConst("ok", "Bool")
 		k := fx.s.freshConst("key", mi.KeySort)
 		fx.assumeOld(st, mt.Key(), k)
-		visited := fx.s.freshConst("visited", "(Array "+mi.KeySort+" Bool)")
+		var visited Term
+		if li := fr.loops[x.Block()]; li != nil && li.visited != "" {
+			visited = li.visited
+			li.visitedNext = fx.s.define("visited", li.visitedSort, fmt.Sprintf("(store %s %s true)", visited, k))
+		} else {
+			visited = fx.s.freshConst("visited", "(Array "+mi.KeySort+" Bool)")
+		}
 		it.visited = visited
 		fx.s.assume(st.guard, fmt.Sprintf("(=> %s (and (not (= %s nilref)) (select (%s %s) %s) (not (select %s %s))))", ok, it.x.t, mi.Dom, cell, k, visited, k))
+		// when the iteration ends every key has been visited
+		fx.s.assume(st.guard, fmt.Sprintf("(=> (not %s) (forall ((vk %s)) (! (=> (and (not (= %s nilref)) (select (%s %s) vk)) (select %s vk)) :pattern ((select %s vk)))))", ok, mi.KeySort, it.x.t, mi.Dom, cell, visited, visited))
 		v := fx.s.define("mapval", mi.ValSort, fmt.Sprintf("(select (%s %s) %s)", mi.Val, cell, k))
 		fx.assumeOld(st, mt.Elem(), v)
 		fr.env[x] = Val{tup: []Val{{t: ok}, {t: k}, {t: v}}}
